@@ -118,7 +118,7 @@ Definition finish (rooted : bool) (t : utree) : gres :=
   | Err m => GErr m
   end.
 
-Definition err_lt2 := "Cannot create an unrooted random binary tree with less than 2 tips".
+Definition err_lt3u := "Cannot create an unrooted random binary tree with less than 3 tips".
 Definition err_lt3 := "Cannot create a rooted random binary tree with less than 3 tips".
 
 Definition close_state (rooted : bool) (ls : list Q) (st : gen_state) : gres :=
@@ -133,7 +133,7 @@ Fixpoint unif_loop (i : nat) (cs : list nat) (st : gen_state) : gen_state :=
   end.
 
 Definition uniform_tree (n : nat) (rooted : bool) (cs : list nat) (ls : list Q) : gres :=
-  if Nat.ltb n 2 then GErr err_lt2
+  if Nat.ltb n 3 && negb rooted then GErr err_lt3u
   else if Nat.ltb n 3 && rooted then GErr err_lt3
   else if negb (Nat.eqb (length cs) (n - 2)) then GErr "model: wrong number of choices"
   else close_state rooted ls (unif_loop 2 cs (init_state rooted)).
@@ -142,7 +142,7 @@ Definition uniform_tree (n : nat) (rooted : bool) (cs : list nat) (ls : list Q) 
 Definition unif_bound (rooted : bool) (i : nat) : nat := if rooted then 2 * i - 2 else 2 * i - 3.
 Definition init_plan (rooted : bool) : list draw := if rooted then [DFloat; DFloat] else [DFloat].
 Definition uniform_plan (n : nat) (rooted : bool) : list draw :=
-  if Nat.ltb n 2 || (Nat.ltb n 3 && rooted) then []
+  if Nat.ltb n 3 then []
   else init_plan rooted ++
        flat_map (fun i => [DInt (unif_bound rooted i); DFloat; DFloat; DFloat]) (seq 2 (n - 2)).
 Definition uniform_bounds (n : nat) (rooted : bool) : list nat := plan_bounds (uniform_plan n rooted).
@@ -189,7 +189,7 @@ Fixpoint yule_loop (i : nat) (cs : list nat) (st : gen_state) : option gen_state
   end.
 
 Definition yule_tree (n : nat) (rooted : bool) (cs : list nat) (ls : list Q) : gres :=
-  if Nat.ltb n 2 then GErr err_lt2
+  if Nat.ltb n 3 && negb rooted then GErr err_lt3u
   else if Nat.ltb n 3 && rooted then GErr err_lt3
   else if negb (Nat.eqb (length cs) (n - 2)) then GErr "model: wrong number of choices"
   else match yule_loop 2 cs (init_state rooted) with
@@ -199,7 +199,7 @@ Definition yule_tree (n : nat) (rooted : bool) (cs : list nat) (ls : list Q) : g
 
 (** len(tips) = i at iteration i *)
 Definition yule_plan (n : nat) (rooted : bool) : list draw :=
-  if Nat.ltb n 2 || (Nat.ltb n 3 && rooted) then []
+  if Nat.ltb n 3 then []
   else init_plan rooted ++ flat_map (fun i => [DInt i; DFloat; DFloat; DFloat]) (seq 2 (n - 2)).
 Definition yule_bounds (n : nat) (rooted : bool) : list nat := plan_bounds (yule_plan n rooted).
 
@@ -214,7 +214,7 @@ Fixpoint cat_loop (fuel : nat) (i : nat) (st : gen_state) : option gen_state :=
   end.
 
 Definition caterpillar_tree (n : nat) (rooted : bool) (ls : list Q) : gres :=
-  if Nat.ltb n 2 then GErr err_lt2
+  if Nat.ltb n 3 && negb rooted then GErr err_lt3u
   else if Nat.ltb n 3 && rooted then GErr err_lt3
   else match cat_loop (n - 2) 2 (init_state rooted) with
        | Some st => close_state rooted ls st
@@ -222,7 +222,7 @@ Definition caterpillar_tree (n : nat) (rooted : bool) (ls : list Q) : gres :=
        end.
 
 Definition caterpillar_plan (n : nat) (rooted : bool) : list draw :=
-  if Nat.ltb n 2 || (Nat.ltb n 3 && rooted) then []
+  if Nat.ltb n 3 then []
   else init_plan rooted ++ flat_map (fun _ => [DFloat; DFloat; DFloat]) (seq 2 (n - 2)).
 
 (** ** RandomBalancedBinaryTree *)
@@ -246,12 +246,13 @@ Fixpoint bal_rec (d : nat) (ls : list Q) (id : nat) : list slot * list Q * nat :
 
 Definition balanced_tree (depth : nat) (rooted : bool) (ls : list Q) : gres :=
   if Nat.ltb depth 1 then GErr "Cannot create an random binary tree of depth < 1"
+  else if Nat.ltb depth 2 && negb rooted then GErr "Cannot create an unrooted random binary tree of depth < 2"
   else
     let t := UNode "" [] (fst (fst (bal_rec depth ls 0))) in
     GOk (if rooted then t else unroot t).
 
-Definition balanced_plan (depth : nat) : list draw :=
-  if Nat.ltb depth 1 then [] else repeat DFloat (2 ^ (S depth) - 2).
+Definition balanced_plan (depth : nat) (rooted : bool) : list draw :=
+  if Nat.ltb depth 1 || (Nat.ltb depth 2 && negb rooted) then [] else repeat DFloat (2 ^ (S depth) - 2).
 
 (** ** StarTree / StarTreeFromName *)
 Definition one : Q := 1%Q.
